@@ -68,3 +68,30 @@ Theorem C04_correspondence_oracles_are_permutations :
   perm_oracle ord_id /\ perm_oracle ord_rev /\ forall m, perm_oracle (ord_mask m).
 Proof. exact (conj ord_id_perm (conj ord_rev_perm ord_mask_perm)). Qed.
 Print Assumptions C04_correspondence_oracles_are_permutations.
+
+(* derived views are stateless: a target over a request variable (ARGS_COMBINED_SIZE, &ARGS,
+   ARGS_NAMES, ARGS:/rx/, REQUEST_HEADERS ...) selects the same entries in EVERY transaction state,
+   so nothing that happened earlier (in this or an earlier transaction) can enter its value *)
+Theorem C04_request_views_are_stateless : forall t rq post s s',
+  request_var (t_var t) = true -> select t rq post s = select t rq post s'.
+Proof. exact select_stateless. Qed.
+Print Assumptions C04_request_views_are_stateless.
+
+(* ARGS_COMBINED_SIZE is the sum of name and value lengths of the arguments visible in the phase,
+   whatever the state, and does not depend on their order *)
+Theorem C04_combined_size_spec : forall rq post s,
+  select (mkT VArgsCombinedSize None [] false None) rq post s
+  = [mkE VArgsCombinedSize [] (itoa (N.of_nat (kv_size (q_get rq ++ if post then q_post rq else []))))].
+Proof. exact combined_size_spec. Qed.
+Print Assumptions C04_combined_size_spec.
+
+Theorem C04_combined_size_order_independent : forall l l', Permutation l l' -> kv_size l = kv_size l'.
+Proof. exact kv_size_perm. Qed.
+Print Assumptions C04_combined_size_order_independent.
+
+(* ... and it is not determined by the names (let alone their number): a memo of the size that is
+   revalidated by the key count returns another request's size (seed C04-g) *)
+Theorem C04_size_memo_by_key_count_refuted :
+  exists l l', List.length l = List.length l' /\ map fst l = map fst l' /\ kv_size l <> kv_size l'.
+Proof. exact size_not_function_of_name_count. Qed.
+Print Assumptions C04_size_memo_by_key_count_refuted.
